@@ -95,6 +95,19 @@ impl Stage for Sizes {
             }
             let dht = start_node(&net, &NodeCfg { addr: node, id: node_id, read_only: false, nodes: contacts.iter().map(|c| c.1).collect(), routers: vec![], announce_port: None });
             let _ = within(Duration::from_secs(400), dht.bootstrapped()).await;
+            if contacts.len() > 30 {
+                // the bootstrap only meets part of a large neighbourhood; a few lookups and two
+                // minutes of refresh rounds bring the rest (named in answers) into the table
+                use futures_util::StreamExt;
+                for k in 0..4u8 {
+                    let mut s = dht.search(btdht::InfoHash::from([k.wrapping_mul(67) ^ 0x5c; 20]), false);
+                    let _ = within(Duration::from_secs(30), async { while s.next().await.is_some() {} }).await;
+                }
+                tokio::time::sleep(Duration::from_secs(120)).await;
+            }
+            if std::env::var_os("VERIF_DEBUG").is_some() {
+                eprintln!("after bootstrap at {} ms: {:?}", net.now_ms(), within(Duration::from_secs(1), dht.get_state()).await);
+            }
             let solo = super::single::Solo { net: net.clone(), node, node_id, dht: Some(dht), v6: c.node_v6 };
             // store k peers on one hash
             for i in 0..c.k {
